@@ -303,9 +303,9 @@ def configs(tier):
     cfgs = []
     for base in ("StandardNormal", "ConditionalDiagonalNormal"):
         for emb in (False, True):
-            for k in ([None] if base == "StandardNormal" and not emb else []) + ([1, 2] if q else [1, 2, 3]):
-                for n in ((1, 2) if q else (1, 2, 3)):
-                    for D in ((1, 2) if q else (1, 2)):
+            for k in ([None] if base == "StandardNormal" and not emb else []) + ([1, 2] if q else [1, 2, 3, 4]):
+                for n in ((1, 2) if q else (1, 2, 3, 4)):
+                    for D in ((1, 2) if q else (1, 2, 3)):
                         cfgs.append({"base": base, "emb": emb, "k": k, "n": n, "D": D, "timeout": 60})
     return cfgs
 
